@@ -137,7 +137,7 @@ let monitors = [
       | 6 -> "early_timeout" | 7 -> "fault" | _ -> "shape");
   "C22", mk_monitor minit22 mstep22 (fun t -> match t with
       | 1 -> "anchor" | 2 -> "window" | 3 -> "supervision_early" | 4 -> "supervision_late" | 5 -> "connect_invalid"
-      | 6 -> "connect_valid_refused" | 7 -> "fault" | 8 -> "channel" | _ -> "shape");
+      | 6 -> "connect_valid_refused" | 7 -> "fault" | 8 -> "no_event_scheduled" | _ -> "shape");
   "none", mon_none ]
 
 let cfg = ref (cfg_of "base")
